@@ -543,6 +543,7 @@ fn u_dispatch(policy: u8, cap: usize, entry: u8) {
     match policy {
         0 => {
             chk!(5, r.is_ok() && unsafe { DISP_TAKEN } == 1, "BlockOnFull: the caller waits until the reducer makes room, then the action is accepted");
+            chk!(4, !r.is_ok() || (g1.len == cap && g1.n_taken == g0.n_taken + 1), "a dispatch that returned Ok under the blocking policy has put its action into the queue (it will be processed before stop() returns)");
             chk!(5, g1.len == cap && g1.max_len <= cap && d1 == d0, "BlockOnFull: nothing is discarded, the queue never exceeds its capacity");
             chk!(2, g1.len == cap && g1.n_taken == g0.n_taken + 1, "when dispatch returns Ok the action IS in the queue (real-time order): one slot was freed, and it is occupied again");
         }
@@ -559,7 +560,7 @@ fn u_dispatch(policy: u8, cap: usize, entry: u8) {
     chk!(18, d1 - d0 == if policy == 0 { 0 } else { 1 }, "action_dropped counts exactly the discarded action");
     core::mem::forget(r);
     core::mem::forget(store);
-    finish!(2, 5, 6, 18);
+    finish!(2, 4, 5, 6, 18);
 }
 macro_rules! disp_harness {
     ($($name:ident = ($p:expr, $c:expr, $e:expr);)+) => { $(
